@@ -46,6 +46,9 @@ pub enum Prop {
     C02,
     C03,
     C06,
+    /// C20's sub-poll batch: several tasks on one MainDevice, task 0 disturbs (its requests are lost,
+    /// time out, are retried or abandoned at any instant); the others must not notice.
+    C20,
 }
 
 #[derive(Clone, Copy, Debug, PartialEq, Eq)]
@@ -520,6 +523,11 @@ fn judge_err(sh: &Sh, req: usize, e: Error, wkc_mode: WkcMode) -> ReqStatus {
         let s = sh.borrow();
         (s.reqs[req].dgs[0].wkc, s.reqs[req].all_lost, s.cfg.prop, s.reqs[req].any_lost)
     };
+    if prop == Prop::C20 {
+        if let Some(st) = c20_judge_err(sh, req, &e) {
+            return st;
+        }
+    }
     match e {
         Error::WorkingCounter { expected, received } if wkc_mode == WkcMode::Wrong => {
             if received != exp_wkc || expected != exp_wkc.wrapping_add(1) {
@@ -538,7 +546,7 @@ fn judge_err(sh: &Sh, req: usize, e: Error, wkc_mode: WkcMode) -> ReqStatus {
             ReqStatus::Completed
         }
         Error::Pdu(PduError::SwapState) => ReqStatus::NotIssued,
-        Error::Timeout(_) if prop == Prop::C06 || prop == Prop::C03 => {
+        Error::Timeout(_) if prop == Prop::C06 || prop == Prop::C03 || prop == Prop::C20 => {
             let _ = (all_lost, any_lost);
             ReqStatus::Failed(format!("{:?}", e))
         }
@@ -549,6 +557,34 @@ fn judge_err(sh: &Sh, req: usize, e: Error, wkc_mode: WkcMode) -> ReqStatus {
             );
             ReqStatus::Failed(format!("{:?}", other))
         }
+    }
+}
+
+/// C20: an operation of a task other than the disturbing one must not fail because of the others,
+/// and allocation must not fail while fewer frames are in flight than the storage holds.
+fn c20_judge_err(sh: &Sh, req: usize, e: &Error) -> Option<ReqStatus> {
+    let (task, observed, any_lost) = {
+        let s = sh.borrow();
+        (s.reqs[req].task, s.cfg.observed, s.reqs[req].any_lost || s.reqs[req].all_lost)
+    };
+    match e {
+        Error::Pdu(PduError::SwapState) => {
+            anomaly(
+                "allocation-failed-with-free-slots",
+                format!("req {} (task {}): no frame could be allocated although fewer frames are in flight than the storage holds", req, task),
+            );
+            Some(ReqStatus::Failed(format!("{:?}", e)))
+        }
+        Error::Timeout(_) if Some(task) == observed && any_lost => Some(ReqStatus::Failed(format!("{:?}", e))),
+        Error::Timeout(_) if Some(task) == observed => None,
+        Error::Timeout(_) => {
+            anomaly(
+                "disturbed-by-other-task",
+                format!("req {} (task {}): timed out although the network answered it; only task {:?}'s requests are lost or abandoned in this run", req, task, observed),
+            );
+            Some(ReqStatus::Failed(format!("{:?}", e)))
+        }
+        _ => None,
     }
 }
 
@@ -750,7 +786,7 @@ fn run_public_op(
 /// C06's per-request clauses, judged when the request resolves.
 fn c06_clauses(sh: &Sh, req: usize, status: &ReqStatus) {
     let s = sh.borrow();
-    if s.cfg.prop != Prop::C06 && s.cfg.prop != Prop::C03 {
+    if s.cfg.prop != Prop::C06 && s.cfg.prop != Prop::C03 && s.cfg.prop != Prop::C20 {
         return;
     }
     let r = &s.reqs[req];
@@ -865,6 +901,12 @@ fn run_multi_op(
     let mut frame = match verif::alloc_frame(pl) {
         Ok(f) => f,
         Err(Error::Pdu(PduError::SwapState)) => {
+            if sh.borrow().cfg.prop == Prop::C20 {
+                anomaly(
+                    "allocation-failed-with-free-slots",
+                    format!("task {}: no frame could be allocated although fewer frames are in flight than the storage holds", task),
+                );
+            }
             sh.borrow_mut().stats.ops_backpressure += 1;
             return;
         }
@@ -1262,23 +1304,30 @@ pub struct RunOutcome {
 pub fn draw_cfg(prop: Prop, t: &mut Tape, thorough: bool) -> ScenCfg {
     let slots = match prop {
         Prop::C06 => t.pick(&[1usize, 2, 1, 2, 4], "slots"),
+        Prop::C20 => t.pick(&[4usize, 8], "slots"),
         _ => t.pick(&[2usize, 1, 4, 2, 1, 8], "slots"),
     };
     let frame_len = {
         let sizes = [64usize, 28, 40, 48, 96, 128, 44, 60, 100, 256, 1514];
         t.pick(&sizes, "frame_len")
     };
-    let n_tasks = 1 + t.choose(3, "n_tasks");
-    let max_ops = if thorough { 6 } else { 4 };
+    let n_tasks = if prop == Prop::C20 {
+        // "Fewer frames in flight than the storage holds": every task has one request outstanding,
+        // and an abandoned frame may stay claimed while TX or RX is still inside it (one each).
+        if slots == 4 { 2 } else { 2 + t.choose(2, "n_tasks") }
+    } else {
+        1 + t.choose(3, "n_tasks")
+    };
+    let max_ops = if thorough || prop == Prop::C20 { 6 } else { 4 };
     let cap = frame_len - 28; // payload capacity of a single-datagram frame
-    let abandon_enabled = matches!(prop, Prop::C03 | Prop::C06);
+    let abandon_enabled = matches!(prop, Prop::C03 | Prop::C06 | Prop::C20);
     let mut tasks = Vec::new();
     for ti in 0..n_tasks {
         let n_ops = 1 + t.choose(max_ops, "n_ops");
         let mut ops = Vec::new();
         for _ in 0..n_ops {
             let multi = t.flag(25, 100, "op_multi");
-            let abandon_after = if abandon_enabled && (prop != Prop::C06 || ti == 0) && t.flag(25, 100, "abandon") {
+            let abandon_after = if abandon_enabled && (!matches!(prop, Prop::C06 | Prop::C20) || ti == 0) && t.flag(25, 100, "abandon") {
                 Some(t.choose(3, "abandon_after") as u8)
             } else {
                 None
@@ -1425,6 +1474,23 @@ pub fn draw_cfg(prop: Prop, t: &mut Tape, thorough: bool) -> ScenCfg {
             cfg.dup = t.pick(&[0u32, 25], "dup");
             cfg.realloc_probe = true;
             cfg.trans = TransMode::WithDeadlines;
+        }
+        Prop::C20 => {
+            cfg.waker_driven = true;
+            cfg.pdu_timeout_us = t.pick(&[1000u64, 50, 30_000], "timeout");
+            cfg.retry = match t.choose(4, "retry") {
+                0 => RetryBehaviour::None,
+                k => RetryBehaviour::Count(k),
+            };
+            // Simulated time only moves when every party is blocked, so a task whose response was
+            // delivered can never legitimately see its deadline.
+            cfg.timer_fire = (0, 1);
+            cfg.observed = Some(0);
+            cfg.lose_all_observed = t.flag(35, 100, "lose_all");
+            cfg.loss = if cfg.lose_all_observed { 0 } else { t.pick(&[40u32, 0, 70], "loss_rate") };
+            cfg.dup = t.pick(&[0u32, 20], "dup");
+            cfg.trans = TransMode::WithDeadlines;
+            cfg.tx_multi_read = true;
         }
         Prop::C06 => {
             cfg.hb = true;
@@ -1607,6 +1673,7 @@ pub fn run_scenario(cfg: ScenCfg, tape: Tape, nonce: u64) -> RunOutcome {
     let nontrivial = match cfg.prop {
         Prop::C03 => s.reqs.len() >= 2 && faults_fired >= 1,
         Prop::C06 => faults_fired >= 1 && ctx.inside_pdu_loop_switches >= 1,
+        Prop::C20 => faults_fired >= 1 && s.stats.overlap_max >= 2 && ctx.inside_pdu_loop_switches >= 1,
         _ => s.stats.overlap_max >= 2 && ctx.inside_pdu_loop_switches >= 1,
     };
     let reqs_summary = s
@@ -1705,7 +1772,7 @@ fn end_of_run_checks(sh: &Sh, end: RunEnd) {
                 }
             }
             Prop::C03 => {}
-            Prop::C06 => {
+            Prop::C06 | Prop::C20 => {
                 if r.status == ReqStatus::Issued {
                     with(|c| {
                         c.anomaly(
